@@ -129,6 +129,8 @@ func runC02(c *Ctx, tier string) {
 	runSelfDescribingKinds(c, "C02-S2")
 	runZSONKindsThroughNamed(c, "C02-U1")
 	runTypeNamesQuoted(c, "C02-Q1")
+	runMapColonSeparator(c, "C02-M2")
+	runDepthCounterBalanced(c, "C02-D2")
 }
 
 // ---------------------------------------------------------------- C03
